@@ -36,7 +36,7 @@ def W(m, p, q):
                m.distance_fn(sg.nodes[p].features, sg.nodes[q].features))
 
 
-def metric_hyp(sym_only=True):
+def metric_hyp(symmetric=True):
     """hypotheses of the properties on the dissimilarity: finite (< FLOAT_MAX), non-negative, symmetric.
     Stated on the uninterpreted DFN / PRE for ALL arguments; on real objects (run-time twin) they are the
     responsibility of the harness, which only feeds such inputs."""
@@ -48,6 +48,10 @@ def metric_hyp(sym_only=True):
     f, g = z3.Consts("hf hg", FEAT)
     from pyvc.logic import realval
     fm = realval(FLOAT_MAX)
+    if not symmetric:
+        return z3.And(
+            z3.ForAll([a, b], z3.And(PRE(a, b) >= 0, PRE(a, b) < fm), patterns=[PRE(a, b)]),
+            z3.ForAll([f, g], z3.And(DFN(f, g) >= 0, DFN(f, g) < fm), patterns=[DFN(f, g)]))
     return z3.And(
         z3.ForAll([a, b], z3.And(PRE(a, b) >= 0, PRE(a, b) < fm, PRE(a, b) == PRE(b, a)), patterns=[PRE(a, b)]),
         z3.ForAll([f, g], z3.And(DFN(f, g) >= 0, DFN(f, g) < fm, DFN(f, g) == DFN(g, f)), patterns=[DFN(f, g)]))
